@@ -199,3 +199,203 @@ def validate(v, pid, wd, tag, lines, obs):
     v.report(key, {"first_unmatched": first, "info": info[:300]},
              {"trace": keep, "cmd": "cd spec && TRACE=%s tlc -workers 1 -config TraceLife.cfg TraceLife.tla" % keep})
     return False
+
+
+# ---------------------------------------------------------------------------------------------
+# C16
+
+def c16_burst(topo, origins, n, rnd, open_keep=2):
+    """run n mixed connections from 8 threads; returns list of per-connection expectations"""
+    closed_port = bb.free_port()
+    kinds = ["ok", "ok", "ok-early", "deny", "norule", "refused", "badauth", "garbage", "abort", "nofeature", "ok-up"]
+    plan = [kinds[i % len(kinds)] for i in range(n)]
+    rnd.shuffle(plan)
+    out = []
+    lock = threading.Lock()
+    keep = []
+
+    def one(i, kind, origin):
+        T = ("ipv4", "127.0.0.1", origin.port)
+        proto = ["http", "socks5", "socks4"][i % 3]
+        exp = {"kind": kind, "proto": proto, "target": "127.0.0.1:%d" % origin.port, "c_bytes": None, "s_bytes": None}
+        try:
+            if kind in ("ok", "ok-early", "abort", "ok-up"):
+                up = "direct" if kind != "ok-up" else ["uphttp", "upsocks5", "upsocks4"][i % 3]
+                early = bb.payload("e%d" % i, 7) if kind == "ok-early" else b""
+                c, rep = topo.open(proto, up, T, early=early)
+                exp.update(listener="%s_%s" % (proto, up), connector=up)
+                if not bb.established(rep):
+                    exp["unexpected"] = "not established"
+                    exp["sport"] = c.s.getsockname()[1]
+                    c.close()
+                    return exp
+                o = origin.accept(3.0)
+                up_bytes = bb.payload("c%d" % i, 100 + 37 * i)
+                down_bytes = bb.payload("s%d" % i, 50 + 11 * i)
+                c.send(up_bytes)
+                o.recv_some(timeout=2.0, want=len(early) + len(up_bytes))
+                o.send(down_bytes)
+                c.recv_some(timeout=2.0, want=len(down_bytes))
+                exp["sport"] = c.s.getsockname()[1]
+                if kind == "abort":
+                    c.rst()
+                    o.recv_until_eof(2.0)
+                    o.close()
+                    exp["error"] = True
+                else:
+                    exp["c_bytes"] = len(early) + len(up_bytes)
+                    exp["s_bytes"] = len(down_bytes)
+                    with lock:
+                        hold = len(keep) < open_keep and kind == "ok"
+                        if hold:
+                            keep.append((c, o, exp))
+                    if not hold:
+                        c.fin(); o.recv_until_eof(2.0); o.fin(); c.recv_until_eof(2.0); c.close(); o.close()
+                    exp["held_open"] = hold
+                exp["states_end"] = "ErrorOccured" if kind == "abort" else "Terminated"
+                return exp
+            if kind == "deny":
+                c, rep = topo.open(proto, "deny", T); exp.update(listener="%s_deny" % proto, connector=None)
+            elif kind == "norule":
+                c, rep = topo.open(proto, "none", T); exp.update(listener="%s_none" % proto, connector=None)
+            elif kind == "refused":
+                c, rep = topo.open(proto, "direct", ("ipv4", "127.0.0.1", closed_port))
+                exp.update(listener="%s_direct" % proto, connector="direct", target="127.0.0.1:%d" % closed_port)
+            elif kind == "nofeature":
+                c, rep = bb.socks5_connect(topo.ports[("socks5", "lb")], ("ipv4", "0.0.0.0", 0), cmd=3)
+                exp.update(listener="socks5_lb", connector=None, target=None, proto="socks5")
+            elif kind == "badauth":
+                c, rep = bb.socks5_connect(topo.ports[("socks5", "auth")], T, methods=(2,), auth=(b"alice", b"nope"))
+                exp.update(listener="socks_auth_direct", connector=None, target=None, proto="socks5")
+            else:  # garbage handshake
+                port = topo.ports[(proto, "direct")]
+                c, rep = bb.raw_connect(port, early=b"\xff\xfe garbage\r\n\r\n")
+                exp.update(listener="%s_direct" % proto, connector=None, target=None)
+            exp["sport"] = c.s.getsockname()[1]
+            exp["error"] = True
+            c.recv_until_eof(2.0)
+            c.close()
+            return exp
+        except OSError as e:
+            exp["exception"] = repr(e)
+            return exp
+
+    def worker(idx, origin):
+        for i in idx:
+            r = one(i, plan[i], origin)
+            with lock:
+                out.append(r)
+    ths = []
+    for t in range(len(origins)):
+        th = threading.Thread(target=worker, args=(list(range(t, n, len(origins))), origins[t]))
+        th.start()
+        ths.append(th)
+    for th in ths:
+        th.join()
+    return out, keep
+
+
+def run_c16(pid, tier, t0):
+    v = vlib.Verdicts(pid)
+    wd = vlib.workdir(pid.lower())
+    thorough = tier == "thorough"
+    seed = vlib.seed()
+    vlib.build_harness()
+    mcs = [vlib.tlc_must_pass(vlib.run_tlc("Life", cfg, workers=8, timeout=1200, name=cfg[:-4]), cfg) for cfg in ("MCLife.cfg", "MCLife0.cfg", "MCLife2.cfg")]
+    configs = [(5, True, 33), (0, False, 22), (100, True, 33)] if not thorough else [(5, True, 120), (0, False, 60), (100, False, 150), (3, True, 90)]
+    nconn = 0
+    ntr = 0
+    samples = []
+    for hist, splice, n in configs:
+        rnd = random.Random(seed * 100 + hist)
+        tag = "h%d_%s" % (hist, "splice" if splice else "buffered")
+        alog = os.path.join(wd, "access_%s.log" % tag)
+        if os.path.exists(alog):
+            os.remove(alog)
+        origins = [bb.TcpOrigin() for _ in range(8)]
+        topo = scen.Topology(wd, "c16_" + tag, splice=splice, special=True, history=hist, access_log=alog).start()
+        api_results = []     # (handler, event) in call order
+        exps, keep = c16_burst(topo, origins, n, rnd)
+        time.sleep(1.6)      # at least one gc tick: everything that ended is collected
+        st, body = topo.p1.api(topo.api1, "/live")
+        api_results.append(("get_alive", {"ev": "api_live", "ids": sorted(e["id"] for e in json.loads(body))}))
+        st, body = topo.p1.api(topo.api1, "/history")
+        api_results.append(("get_history", {"ev": "api_history", "ids": [e["id"] for e in json.loads(body)]}))
+        for c, o, exp in keep:
+            c.fin(); o.recv_until_eof(2.0); o.fin(); c.recv_until_eof(2.0); c.close(); o.close()
+        time.sleep(1.6)
+        st, body = topo.p1.api(topo.api1, "/live")
+        api_results.append(("get_alive", {"ev": "api_live", "ids": sorted(e["id"] for e in json.loads(body))}))
+        st, body = topo.p1.api(topo.api1, "/history")
+        hist_entries = json.loads(body)
+        api_results.append(("get_history", {"ev": "api_history", "ids": [e["id"] for e in hist_entries]}))
+        topo.p1.api(topo.api1, "/logrotate", method="POST", body="")
+        time.sleep(0.5)
+        alive = topo.p1.alive()
+        panic = topo.p1.panicked()
+        topo.stop()
+        for o in origins:
+            o.close()
+        if panic or not alive:
+            v.report("life/proxy-died", str(panic)[:300], {"tag": tag})
+        entries = []
+        if os.path.exists(alog):
+            for ln in open(alog, "rb").read().decode("utf-8", "replace").splitlines():
+                if ln.strip():
+                    entries.append(json.loads(ln))
+        by_id = {e["id"]: e for e in entries}
+        trace = topo.p1.trace()
+        # attach API results to the api_end events of their handlers, in order
+        extra = {}
+        pend = {"get_alive": [r for h, r in api_results if h == "get_alive"], "get_history": [r for h, r in api_results if h == "get_history"]}
+        for e in trace:
+            if e["ev"] == "api_end" and e["handler"] in pend and pend[e["handler"]]:
+                extra[e["seq"]] = pend[e["handler"]].pop(0)
+        obs = []
+        port_ids = {}
+        for e in trace:
+            if e["ev"] == "ctx_new":
+                port_ids.setdefault((e["listener"], int(e["source"].rsplit(":", 1)[1])), []).append(e["id"])
+        for x in exps:
+            nconn += 1
+            if x.get("exception") or x.get("unexpected"):
+                v.report("life/scenario-failed/%s" % x["kind"], x, {"tag": tag})
+                continue
+            ids = port_ids.get((x["listener"], x["sport"]), [])
+            if len(ids) != 1:
+                continue
+            ent = by_id.get(ids[0])
+            if ent is None:
+                obs.append({"ev": "obs_record", "id": ids[0], "kind": x["kind"], "listener_ok": False, "source_ok": False, "target_ok": False,
+                            "connector_ok": False, "bytes_ok": False, "states": [], "error_recorded": False, "missing_in_access_log": True})
+                continue
+            states = [s["state"] for s in ent["state"]]
+            bytes_ok = True
+            if x.get("c_bytes") is not None:
+                bytes_ok = ent["client_stat"]["read_bytes"] == x["c_bytes"] and ent["server_stat"]["read_bytes"] == x["s_bytes"]
+            obs.append({"ev": "obs_record", "id": ids[0], "kind": x["kind"],
+                        "listener_ok": ent["listener"] == x["listener"],
+                        "source_ok": ent["source"] == "127.0.0.1:%d" % x["sport"],
+                        "target_ok": x["target"] is None or ent["target"] == x["target"],
+                        "connector_ok": ent["connector"] == x["connector"] or (x["connector"] is None and ent["connector"] in (None, "lb")),
+                        "bytes_ok": bytes_ok, "states": states, "error_recorded": ent["error"] is not None,
+                        "recorded": {"target": ent["target"], "connector": ent["connector"], "c_bytes": ent["client_stat"]["read_bytes"],
+                                     "s_bytes": ent["server_stat"]["read_bytes"], "error": ent["error"]},
+                        "expected": {k: x.get(k) for k in ("target", "connector", "c_bytes", "s_bytes")}})
+        obs.append({"ev": "log_lines", "ids": [e["id"] for e in entries]})
+        lines, _, _ = gather(topo, [], hist, extra_events=extra)
+        lines += obs
+        if validate(v, pid, wd, tag, lines, obs):
+            ntr += 1
+        samples.append({"history_size": hist, "connections": n, "api": [r for _, r in api_results][:2], "record": obs[0] if obs else None})
+    ev = vlib.evidence(pid, tier, "model_checking", {
+        "states": sum(m.distinct for m in mcs), "transitions": sum(m.generated for m in mcs), "traces_validated_against_impl": ntr,
+        "samples": samples[:2], "evaluations": nconn, "distinct_nontrivial": nconn,
+        "rule": "Life.tla (3 connections x all outcomes x history size 0/1/2); bursts of mixed connections (ok, ok with early data, ok through an "
+                "upstream proxy, denied, no rule, refused, bad password, garbage handshake, aborted mid-tunnel, unsupported feature) from 8 "
+                "threads against real processes with history sizes incl. 0 and smaller than the burst; lifecycle events + /live and /history "
+                "snapshots at quiescent points + access log lines + per-connection record checks are one TraceLife trace per configuration",
+        "configurations": [{"history": h, "splice": s, "connections": n} for h, s, n in configs], "exhaustive": False, "checker_cmd": mcs[0].cmd,
+    }, ["API snapshots are taken when the driver has no connection in transition (quiescent), so they must equal the model's sets exactly",
+        "UDP sessions are covered by C10's runs"])
+    return v.finish(ev, t0)
